@@ -55,6 +55,19 @@ CLAIMED.update({
             "§3 C04"),
 })
 
+CLAIMED.update({
+    "C05": ("exploration",
+            "bounded-exhaustive enumeration of integer matrices (all 2x2 over {-2..2}, all 3x3 over {-1,0,1} quick / {-1,0,1,2} thorough, all signed permutation matrices n<=5 / n<=7, P*L*U with every permutation) and structured families, against an exact Bareiss determinant (__int128) and a binary128 complete-pivoting inverse",
+            "Determinant must equal the exact integer determinant bit for bit on every enumerated integer matrix (transpose invariance, row-swap sign, multiplicativity, triangular product checked directly), Invertible must agree with it, Inverse must return for every invertible matrix whatever the position of its zero or tiny entries and agree with the exact inverse within 16*n*kappa*u (X*M and M*X against I with the stated powers of kappa), and must end the process for every singular or non-square one. Complete products make 'whatever the position of the zeros' a statement about all positions rather than one sample.",
+            "Sizes above 3 are covered by structured families (permutations, PLU, tiny pivots in every diagonal position, triangular/diagonal/symmetric, rank-deficient, graded scalings to kappa 1e8), not by complete products. Rejection is observed through interposed exit(); the diagnostic text is checked in C10.",
+            "§3 C05"),
+    "C15": ("exploration",
+            "bounded-exhaustive enumeration of structured families n<=5 (quick) / n<=7 (thorough): QR on integer/graded/all non-singular 3x3 matrices; symmetric M = Q diag(lambda) Q^T for every member of a finite orthogonal family x eigenvalue ratio patterns x sign patterns, against long-double cyclic Jacobi; every Eigensystem/Eigenvectors call in its own child process with a 2 s limit",
+            "QR: Q^T Q = I and QR = M within 16 n^2 u, R exactly zero below the diagonal, on every enumerated non-singular matrix. Eigenvalues: spectrum equals the Jacobi reference as a multiset, sums to the trace, multiplies to the determinant. Eigensystem/Eigenvectors: must terminate (time-bounded child), return n unit vectors, each an eigenpair within 1e-8*|M|, each reference eigenvalue represented once - including diagonal and block-diagonal matrices and eigenvectors with zero components, which is where the pinned code aborted or looped.",
+            "Orthogonal family and ratio patterns are finite lists (signed permutations, Givens products with angles pi/6, pi/4, pi/3, 1, Householder reflectors of integer vectors; ratios 0.1..0.8). Five n>=6 matrices on which Eigenvalues hits its 200-step cap are recorded in KNOWN_FINDINGS.txt.",
+            "§3 C15"),
+})
+
 NOT_APPLICABLE = {
 }
 
